@@ -52,6 +52,7 @@ package bam
 //@   requires 0 <= b.off && b.off <= len(b.data) && 0 <= n
 //@   modifies b.off, b.err
 //@   ensures[C11] @inv old(b.off) <= b.off && b.off <= len(b.data) && b.data == old(b.data)
+//@   ensures[C11] @sticky old(b.err) != nil ==> b.err != nil
 //@   ensures[C11] @got (old(b.err) == nil && old(len(b.data) - b.off) >= n) ==> (len(result) == n && b.err == nil && b.off == old(b.off) + n)
 //@   ensures[C11] @short (old(b.err) != nil || old(len(b.data) - b.off) < n) ==> (len(result) == 0 && b.err != nil && b.off == old(b.off))
 
@@ -62,6 +63,7 @@ package bam
 //@   requires 0 <= b.off && b.off <= len(b.data) && 0 <= n
 //@   modifies b.off, b.err
 //@   ensures[C11] @inv old(b.off) <= b.off && b.off <= len(b.data) && b.data == old(b.data)
+//@   ensures[C11] @sticky old(b.err) != nil ==> b.err != nil
 
 //@ func buffer.readUint8
 //@   mode int
@@ -70,6 +72,7 @@ package bam
 //@   requires 0 <= b.off && b.off <= len(b.data)
 //@   modifies b.off, b.err
 //@   ensures[C11] @inv old(b.off) <= b.off && b.off <= len(b.data) && b.data == old(b.data)
+//@   ensures[C11] @sticky old(b.err) != nil ==> b.err != nil
 
 //@ func buffer.readUint16
 //@   mode int
@@ -78,6 +81,7 @@ package bam
 //@   requires 0 <= b.off && b.off <= len(b.data)
 //@   modifies b.off, b.err
 //@   ensures[C11] @inv old(b.off) <= b.off && b.off <= len(b.data) && b.data == old(b.data)
+//@   ensures[C11] @sticky old(b.err) != nil ==> b.err != nil
 
 //@ func buffer.readInt32
 //@   mode int
@@ -86,6 +90,7 @@ package bam
 //@   requires 0 <= b.off && b.off <= len(b.data)
 //@   modifies b.off, b.err
 //@   ensures[C11] @inv old(b.off) <= b.off && b.off <= len(b.data) && b.data == old(b.data)
+//@   ensures[C11] @sticky old(b.err) != nil ==> b.err != nil
 
 //@ func buffer.bytes
 //@   mode int
@@ -94,7 +99,9 @@ package bam
 //@   requires 0 <= b.off && b.off <= len(b.data) && 0 <= n
 //@   modifies b.off, b.err
 //@   ensures[C11] @inv old(b.off) <= b.off && b.off <= len(b.data) && b.data == old(b.data)
+//@   ensures[C11] @sticky old(b.err) != nil ==> b.err != nil
 //@   ensures[C11] @len len(result) == 0 || len(result) == n
+//@   ensures[C11] @whole b.err == nil ==> len(result) == n
 
 //@ func readCigarOps
 //@   mode int
